@@ -1,3 +1,3 @@
 SPECIFICATION GenSpec
-CONSTANTS Kinds = {"K1", "K2"}  Ids = {1}  Ctrls = {"u", "q"}  Cfg <- CfgF  Alt <- AltF  Cached = {}  MaxWrites = 7  MaxFaults = 0  MapTo <- MapSame
+CONSTANTS Kinds = {"K1", "K2"}  Ids = {1}  Ctrls = {"u", "q"}  Cfg <- CfgF  Alt <- AltF  Cached = {}  MaxWrites = 7  MaxFaults = 0  Noops = TRUE  MapTo <- MapSame
 CHECK_DEADLOCK FALSE
